@@ -1,5 +1,6 @@
 import PyndlDriver.Json
 import PyndlDriver.Plugins
+import PyndlDriver.ModelCopies
 
 open Lean
 
@@ -63,26 +64,6 @@ def opDictNdl (j : Json) : M Json := do
     pure (Json.mkObj [("cells", cellsJson cells),
                       ("bits", jNat (maxBits (cells.map (·.2.2))))])
 
-/-- op rw_spec: the specification `rwLearn` itself, evaluated on the total
-    weight function, read back at every (outcome, cue) that occurs -/
-def opRwSpec (j : Json) : M Json := do
-  let es ← getEvents j "events"
-  let α ← getAlpha j
-  let b1 ← getTR j "beta1"
-  let b2 ← getTR j "beta2"
-  let lam ← getTR j "lambda"
-  let p ← getPolicy j "policy"
-  let W0 ← getInitDict j
-  match applyPolicyAll p es with
-  | none => pure (jErr .value)
-  | some es' =>
-    let W := rwLearn α b1 b2 lam (wdAbs W0) es'
-    let outs := dedupKeepFirst (W0.map (·.1) ++ es'.flatMap (·.outcomes))
-    let cues := dedupKeepFirst (W0.flatMap (fun r => r.2.map (·.1)) ++ es'.flatMap (·.cues))
-    let cells := outs.flatMap (fun o => cues.map (fun c => (o, c, W o c)))
-    pure (Json.mkObj [("cells", cellsJson cells),
-                      ("bits", jNat (maxBits (cells.map (·.2.2))))])
-
 def getMethod (j : Json) (k : String) : M Method :=
   match j.getObjVal? k with
   | .ok (.str "threading") => .ok .threading
@@ -121,12 +102,66 @@ def opNdl (j : Json) : M Json := do
     perJob := ← getNat j "per_job"
     perFile := ← getNat j "per_file" }
   let W0 ← getLW j
-  match ndlCall Generated.pyMagic Generated.pyVersion cfg alpha b1 b2 lam W0 es with
+  match ndlCallFile Generated.pyMagic Generated.pyVersion cfg alpha b1 b2 lam W0 es with
   | .error e => pure (jErr e)
   | .ok (w, n) => pure ((lwJson w).setObjVal! "n_events" (jNat n))
 
+/-- one part of a chain request: `learner` "dict_ndl" (with `make_data_array`) or
+    "ndl" (with `method`, `per_job`, `per_file`), its `policy` (default: the
+    request's), its `events` -/
+def asPartD (dflt : Json) (pc : Json) : M PartD := do
+  let es ← getEvents pc "events"
+  let p ← match getOpt pc "policy" with
+    | some _ => getPolicy pc "policy"
+    | none => getPolicy dflt "policy"
+  match (← getStr pc "learner") with
+  | "dict_ndl" => pure (.dict p (getBoolD pc "make_data_array" false), es)
+  | "ndl" =>
+    pure (.ndl { policy := p, method := ← getMethod pc "method", perJob := getNatD pc "per_job" 10,
+                 perFile := getNatD pc "per_file" 10000000 }, es)
+  | l => .error s!"bad learner {l}"
+
+/-- op chain: `chainRunD` (= `Pyndl.chainRun`, PyndlProofs/DriverBridge.lean
+    `chainRunD_eq`) on the list of parts a real chain of learner calls executes:
+    per part the learner, its configuration and its events; between two parts the
+    model's own hand-over conversions (`dictFromLW`, `lwFromDict`, `extendLW`
+    inside `ndlCall`).
+    request: {"op":"chain","alpha":q,"beta1":q,"beta2":q,"lambda":q,"policy":p,
+              "pieces":[{"learner":"dict_ndl"|"ndl","make_data_array":bool,"method":"threading"|"openmp",
+                         "per_job":n,"per_file":n,"policy":p (optional),"events":[[cues,outcomes],…]},…]}
+    reply:   {"kind":"none"|"dict"|"matrix","outcomes":[…],"cues":[…]   (labels IN ORDER; dict: keys / union of row keys)
+              "cells":[[outcome,cue,"num/den"],…] (non-zero cells),"bits":n}
+          or {"err":"Raised:Value|IO|Other","failed_piece":k}  (k: the first part whose prefix of the chain fails) -/
+def opChain (j : Json) : M Json := do
+  let alpha ← getTR j "alpha"
+  let b1 ← getTR j "beta1"
+  let b2 ← getTR j "beta2"
+  let lam ← getTR j "lambda"
+  let parts ← (← getArr j "pieces").toList.mapM (asPartD j)
+  let run (ps : List PartD) := chainRunD Generated.pyMagic Generated.pyVersion alpha b1 b2 lam none ps
+  match run parts with
+  | .error e =>
+    let k := ((List.range parts.length).find? (fun k =>
+      match run (parts.take (k + 1)) with | .error _ => true | .ok _ => false)).getD 0
+    pure ((jErr e).setObjVal! "failed_piece" (jNat k))
+  | .ok none =>
+    pure (Json.mkObj [("kind", "none"), ("outcomes", jStrs []), ("cues", jStrs []), ("cells", Json.arr #[]), ("bits", jNat 0)])
+  | .ok (some (.dict W)) =>
+    let cells := W.flatMap (fun (o, row) => row.map (fun (c, v) => (o, c, v)))
+    pure (Json.mkObj [("kind", "dict"), ("outcomes", jStrs (W.map (·.1))),
+                      ("cues", jStrs (dedupKeepFirst (W.flatMap (fun r => r.2.map (·.1))))),
+                      ("cells", cellsJson (cells.filter (fun x => x.2.2.v != 0))),
+                      ("bits", jNat (maxBits (cells.map (·.2.2))))])
+  | .ok (some (.matrix w)) =>
+    let cells := w.outcomes.flatMap (fun o => w.cues.map (fun c => (o, c, w.get o c)))
+    pure (Json.mkObj [("kind", "matrix"), ("outcomes", jStrs w.outcomes), ("cues", jStrs w.cues),
+                      ("cells", cellsJson (cells.filter (fun x => x.2.2.v != 0))),
+                      ("bits", jNat (maxBits w.vals.toList))])
+
 /-- op queue_trace: replay an observed history of the work-queue protocol
-    through the Lean transition system -/
+    through the Lean transition system (`qRun`); actions `["take"|"exit"|"finish"|"fail", thread]`
+    (`fail`: the kernel call of that worker raised).  Reply: accepted / first_rejected, final (`qFinal`),
+    raises (`qRaises`: `if worker_errors: raise` after the join — C05 worker_fault_raises), taken, measure -/
 def opQueueTrace (j : Json) : M Json := do
   let p ← getNat j "parts"
   let t ← getNat j "threads"
@@ -141,6 +176,7 @@ def opQueueTrace (j : Json) : M Json := do
       | "take" => pure (QAction.take th)
       | "exit" => pure (QAction.exit th)
       | "finish" => pure (QAction.finish th)
+      | "fail" => pure (QAction.fail th)
       | _ => .error "bad action"
     | _ => .error "bad action")
   let s0 := qInit p t
@@ -150,16 +186,20 @@ def opQueueTrace (j : Json) : M Json := do
     pure (Json.mkObj [("accepted", Json.bool false), ("first_rejected", jNat i)])
   | some s =>
     pure (Json.mkObj [("accepted", Json.bool true), ("final", Json.bool (qFinal s)),
-                      ("taken", jNats s.taken), ("measure_left", jNat (qMeasure s)),
+                      ("raises", Json.bool (qRaises s)), ("taken", jNats s.taken), ("measure_left", jNat (qMeasure s)),
                       ("bound", jNat (2 * p + t))])
 
-/-- op partition: both partitioners on `List.range n` -/
+/-- op partition: the partitioners on `List.range n`: `sliceList` (threading),
+    `ompParts32` (what `ndlCore` runs for openmp: the Cython `unsigned int`
+    bounds) and the unbounded `ompParts` the partition theorems of C02 are about
+    (`ompParts32_eq`: equal when `n + chunk < 2³²`) -/
 def opPartition (j : Json) : M Json := do
   let n ← getNat j "n"
   let c ← getNat j "chunk"
   let xs := List.range n
   pure (Json.mkObj [("slice_list", Json.arr ((sliceList xs c).map jNats).toArray),
-                    ("omp_parts", Json.arr ((ompParts xs c).map jNats).toArray)])
+                    ("omp_parts", Json.arr ((ompParts32 xs c).map jNats).toArray),
+                    ("omp_parts_unbounded", Json.arr ((ompParts xs c).map jNats).toArray)])
 
 def readErrName : ReadErr → String
   | .badMagic => "badMagic" | .badVersion => "badVersion" | .truncated => "truncated"
@@ -211,10 +251,12 @@ def opKernelB2B (j : Json) : M Json := do
   let w0 : Array TR := match getOpt j "init" with
     | some (.arr a) => a.map (fun v => match asTR v with | .ok t => t | .error _ => 0)
     | _ => Array.replicate (nCues * nOut) 0
+  -- the event loop of one chunk file is the model's own schedule of ONE file: `learnOpenmpSeq32`
+  -- (openmp entry point: the 32-bit parts of `rows`, what `ndlCore` runs) resp. `kernelPart`
+  -- (threading entry point: one call = one part over the files it is given)
   let learnFile : Array TR → List (Event Nat Nat) → Array TR := fun w es =>
-    if entry == "openmp" then
-      (ompParts rows chunk).foldl (fun w part => kernelFile alpha b1 b2 lam nCues part w es) w
-    else kernelFile alpha b1 b2 lam nCues rows w es
+    if entry == "openmp" then learnOpenmpSeq32 alpha b1 b2 lam nCues [es] rows chunk w
+    else kernelPart alpha b1 b2 lam nCues [es] w rows
   let (w, e) := learnChunksB2B Generated.kernelMagic Generated.kernelVersion learnFile chunks w0
   let cells := (List.range w.size).filterMap (fun k =>
     let v := w.getD k 0
@@ -233,7 +275,17 @@ def opChunkFiles (j : Json) : M Json := do
   let delays ← match getOpt j "delays" with
     | some d => asNatList d
     | none => pure []
-  if per < 2 then pure (jErr .value) else
+  -- argument / conversion errors are `ndlCore`'s own (its `events_per_temporary_file < 2` guard, the
+  -- overflow guard and the duplicate policy of `makeChunks`): the id events are read as events whose
+  -- names are the decimal ids, labelled in id order (so `toIds` gives the ids back)
+  let width (f : Event Nat Nat → List Nat) := es.foldl (fun m e => (f e).foldl (fun m x => max m (x + 1)) m) 0
+  let names (k : Nat) : List String := (List.range k).map toString
+  let named : List (Event String String) := es.map (fun e => ⟨e.cues.map toString, e.outcomes.map toString⟩)
+  match ndlCore (R := Int) Generated.pyMagic Generated.pyVersion
+      { policy := p, method := .threading, perJob := 1, perFile := per } 0 0 0 0
+      (names (width (·.cues))) (names (width (·.outcomes))) #[] named with
+  | .error e => pure (jErr e)
+  | .ok _ =>
   match makeChunks Generated.pyMagic Generated.pyVersion p es per with
   | .error e => pure (jErr e)
   | .ok (files, total) =>
@@ -252,31 +304,115 @@ def opChunkFiles (j : Json) : M Json := do
         ("sim_total", jNat tot), ("sim_horizon", jNat H)])
 
 /-- op storage_fault: byte sizes of the chunk files of a conversion and whether a
-    per-file byte budget makes some conversion job fail (C05/C17) -/
+    per-file byte budget makes some conversion job fail (C05/C17).  Sizes are the
+    theorem-backed `encodedSize` of every job's window (C06 `encoded_size` /
+    C05 `storage_need`: a job needs exactly that many bytes); the jobs are
+    `0 … n / per` — up to the first job whose result closes the pool (`firstClosing`;
+    job 0 is always submitted; a job with an empty window still needs the 12 header
+    bytes, `encodedSize [] = 12`).
+    request: {"events": id events, "per": n, "budget": b}
+    reply:   {"sizes": [bytes of the non-empty chunk files], "job_sizes": [bytes job 0 … n/per needs],
+              "raises": some job needs more than b bytes} -/
 def opStorageFault (j : Json) : M Json := do
   let es ← getIdEvents j "events"
   let per ← getNat j "per"
   let budget ← getNat j "budget"
-  match makeChunks Generated.pyMagic Generated.pyVersion .keep es per with
-  | .error e => pure (jErr e)
-  | .ok (files, _) =>
-    let sizes := files.map (·.length)
-    -- a job behind the end still writes the 12 byte header before it removes the file
-    let fails := sizes.any (fun s => decide (s > budget)) || decide (budget < 12)
-    pure (Json.mkObj [("sizes", jNats sizes), ("raises", Json.bool fails),
-                      ("encoded_sizes", jNats ((List.range files.length).map (fun k => encodedSize (chunkOf per es k))))])
+  if per == 0 then pure (jErr .value) else
+  let jobSizes := (List.range (firstClosing es.length per + 1)).map (fun k => encodedSize (chunkOf per es k))
+  let sizes := (List.range (nChunks es.length per)).map (fun k => encodedSize (chunkOf per es k))
+  pure (Json.mkObj [("sizes", jNats sizes), ("encoded_sizes", jNats sizes), ("job_sizes", jNats jobSizes),
+                    ("raises", Json.bool (jobSizes.any (fun s => decide (s > budget))))])
+
+/-- op conversion_faults: what the LEARNER MODEL decides for a run with a fault the
+    model knows — a repeated cue / outcome under a policy, `events_per_temporary_file
+    ≥ 2³²` (or `< 2`), an event file with zero events, `n_outcomes_per_job` out of
+    range, a cue / outcome without a vector (Widrow–Hoff) — and, for the learners
+    that write chunk files, what the conversion model decides: the failing-job
+    oracle of the event file (`failingJobD` = `Pyndl.failingJob`,
+    PyndlProofs/DriverBridge.lean) and the submit loop `simulateF` run with it.
+    request: {"learner": "dict_ndl"|"ndl_threading"|"ndl_openmp"|"wh_r2r"|"wh_b2r"|"wh_r2b"|"wh_numpy"|"dict_wh",
+              "events": [[cues,outcomes],…], "policy": p, "per_file": n, "per_job": n,
+              "alpha","beta1","beta2","lambda","eta": q (defaults 1/4, 1/2, 1/4, 1, 1/4),
+              "cue_vectors","outcome_vectors": tables as for op wh (wh learners),
+              "burst": n (throttle × n_jobs, default 8), "delays": [ticks of job 0, 1, …] (default 0)}
+    reply:   {"learner": "Returned" | "Raised:Value|IO|Key|Other|Assertion"   (dictNdl / ndlCall / whModel /
+                                                                              whNumpyModel / dictWhModel),
+              "conversion": null (no chunk files), or
+                 {"failing_jobs": [j ≤ n/per with failingJob], "first_closing": f0, "sim_raises": bool,
+                  "sim_close_time": t, "sim_count": events written by the jobs that did not fail}} -/
+def opConversionFaults (j : Json) : M Json := do
+  let learner ← getStr j "learner"
+  let es ← getEvents j "events"
+  let p ← getPolicy j "policy"
+  let per := getNatD j "per_file" 10000000
+  let perJob := getNatD j "per_job" 10
+  let q (k : String) (d : Rat) : TR := trD j k (TR.ofRat d)
+  let alpha := q "alpha" (1/4)
+  let b1 := q "beta1" (1/2)
+  let b2 := q "beta2" (1/4)
+  let lam := q "lambda" 1
+  let eta := q "eta" (1/4)
+  let ct ← getTableOpt j "cue_vectors"
+  let ot ← getTableOpt j "outcome_vectors"
+  let ofErr : {α : Type} → Except Err α → String := fun r =>
+    match r with | .ok _ => "Returned" | .error e => errName e
+  let ofPy : {α : Type} → Except PyErr α → String := fun r =>
+    match r with | .ok _ => "Returned" | .error e => pyErrName e
+  let ndlOf (m : Method) : String :=
+    ofErr (ndlCall Generated.pyMagic Generated.pyVersion
+      { policy := p, method := m, perJob := perJob, perFile := per } alpha b1 b2 lam none es)
+  let tabs : M (VecTable TR × VecTable TR) := match ct, ot with
+    | some c, some o => pure (c, o)
+    | _, _ => .error "cue_vectors and outcome_vectors needed"
+  let res ← match learner with
+    | "dict_ndl" =>
+      pure (match dictNdl p (fun _ => alpha) b1 b2 lam ([] : WDict String String TR) es with
+        | none => errName .value | some _ => "Returned")
+    | "ndl_threading" => pure (ndlOf .threading)
+    | "ndl_openmp" => pure (ndlOf .openmp)
+    | "wh_r2r" => pure (ofErr (whModel .r2r p eta b1 b2 lam ct ot perJob none es))
+    | "wh_b2r" => pure (ofErr (whModel .b2r p eta b1 b2 lam none ot perJob none es))
+    -- wh.py:140-141: real → binary runs with betas = (eta, eta), lambda = 1
+    | "wh_r2b" => pure (ofErr (whModel .r2b p eta eta eta (TR.ofRat 1) ct none perJob none es))
+    | "wh_numpy" => do
+      let (c, o) ← tabs
+      pure (ofPy (whNumpyModel p eta c o none es))
+    | "dict_wh" => do
+      let (c, o) ← tabs
+      pure (ofPy (dictWhModel p eta c o [] es))
+    | l => .error s!"bad learner {l}"
+  let writesChunks := ["ndl_threading", "ndl_openmp", "wh_r2r", "wh_b2r", "wh_r2b"].contains learner
+  let conv : Json :=
+    if !writesChunks || per == 0 then Json.null else
+    let (cues, outs) := countNames es
+    let ids := es.map (toIds cues outs)
+    let failing := failingJobD Generated.pyMagic Generated.pyVersion p ids per
+    let n := ids.length
+    let burst := getNatD j "burst" 8
+    let delays : List Nat := match getOpt j "delays" with
+      | some d => match asNatList d with | .ok l => l | .error _ => []
+      | none => []
+    let delay : Nat → Nat := fun k => delays.getD k 0
+    let jobs := List.range (n / per + 1)
+    let f0 := (jobs.find? (closesF n per failing)).getD (n / per)
+    let H := tDone delay burst f0
+    let (c, raises, cnt) := simulateF n per burst delay failing f0 H
+    Json.mkObj [("failing_jobs", jNats (jobs.filter failing)), ("first_closing", jNat f0),
+                ("sim_raises", Json.bool raises), ("sim_close_time", jNat c), ("sim_count", jNat cnt)]
+  pure (Json.mkObj [("learner", Json.str res), ("conversion", conv)])
 
 def handle (j : Json) : M Json := do
   let op ← getStr j "op"
   match op with
   | "ping" => pure (Json.mkObj [("pong", Json.bool true)])
   | "dict_ndl" => opDictNdl j
-  | "rw_spec" => opRwSpec j
   | "ndl" => opNdl j
+  | "chain" => opChain j
   | "queue_trace" => opQueueTrace j
   | "partition" => opPartition j
   | "chunk_files" => opChunkFiles j
   | "storage_fault" => opStorageFault j
+  | "conversion_faults" => opConversionFaults j
   | "encode" => opEncode j
   | "decode" => opDecode j
   | "kernel_b2b" => opKernelB2B j
